@@ -2199,6 +2199,8 @@ def run(ck):
     ck.assumptions += [
         'coq/gen/ReactorBody.v = the body of _get_deleted and the four structural loops of _patcher (base.py lines 43-73, 89-169) TRANSLATED from the source of this run '
         '(tools/gen_reactorbody.py) and proved equal to / in agreement with coq/model/Reactor.v for all inputs (C16_translated_*, C16_patcher_is_translated_text); '
+        'coq/gen/ReactorInit.v = the _to_delete expression, the constructor wiring Transformer / Reactor -> BaseReactor -> tail of _patcher, fix_mapping_overlap and the collision remap of '
+        '_single_stage TRANSLATED from the source of this run (tools/gen_reactorinit.py; C16_translated_to_delete_*, C16_*_wiring, C16_translated_fix_mapping_overlap_is_model, C16_translated_stage_remap_is_model); '
         'the vocabulary of the translation (sets as lists, copy() = plain_atom / copy_atom / plain, element constructor, truthy_get, skipped coordinates) is tied by the state-level cases; '
         'coq/model/Reactor.v is otherwise a hand-written restatement of BaseReactor.__init__ (_to_delete), _get_deleted, the structural part of _patcher and fix_mapping_overlap; '
         'tie = correspondence on every graph with <= 4 atoms x matched set x to-delete subset, random cyclic graphs, corpus molecules, '
@@ -2227,7 +2229,7 @@ def run(ck):
     # tools/gen_reactorshape.py; C16_reactor_shape_unchanged / C16_reactor_conditions_unchanged stop compiling on any edit)
     # Gen.ReactorBody = the body of _get_deleted and the two structure loops of _patcher, translated statement by statement
     # (tools/gen_reactorbody.py); C16_translated_* prove them equal to the hand-written model
-    proved = timed('proof steps', lambda c: common.standard_proof_steps(c, translators=['stereo', 'reactorshape', 'reactorbody']))
+    proved = timed('proof steps', lambda c: common.standard_proof_steps(c, translators=['stereo', 'reactorshape', 'reactorbody', 'reactorinit']))
     REGION_OK[0] = translator_accepts()
     tied = timed('corr to_delete', corr_to_delete)
     tied = timed('corr get_deleted', corr_get_deleted) and tied
